@@ -38,8 +38,14 @@ def rich_story(rng, sid, timing=None):
         pl.append(E('TextTime', text=rng.choice(DURS)))
     elif timing == 'media':
         pl.append(E('MediaTime', text=rng.choice(DURS)))
+    if pl and rng.random() < 0.15:
+        # a field twice in one payload, with another value: the first one counts
+        first = rng.choice(pl)
+        pl.append(E(first.tag, text=rng.choice([d for d in DURS if d != first.text])))
     if rng.random() < 0.25:
         pl.append(E('StoryStarted', text=rng.choice(TIME_TEXTS)))
+        if rng.random() < 0.3:
+            pl.append(E('StoryStarted', text=rng.choice(TIME_TEXTS)))
     if rng.random() < 0.25:
         pl.append(E('StoryEnded', text=rng.choice(TIME_TEXTS)))
     body = []
